@@ -1,5 +1,5 @@
 (* C06 - Unknown options, extensions and entity members are skipped, not fatal. *)
-From Ctap Require Import Base Schema Wire Utf8 Typed Procs Inst Tables CborItem WireP SkipP TypedP EntriesP FramingP ObRequestSide FnShapes Shapes ObShapeRequest Deps ObDeps.
+From Ctap Require Import Base Schema Wire Utf8 Typed Procs Inst Tables CborItem WireP SkipP TypedP EntriesP FramingP ObRequestSide FnShapes Shapes ObShapeRequest Deps ObDeps ObShapeStrings ObShapeFilters.
 Local Open Scope string_scope.
 Local Open Scope Z_scope.
 
@@ -95,6 +95,12 @@ Proof. exact generated_shapes_request. Qed.
 Theorem c06_modelled_dependencies_pinned : deps_hold lock_versions cargo_deps = true.
 Proof. exact generated_deps. Qed.
 
+(* further hand-modelled functions this property rests on *)
+Theorem c06_modelled_functions_unchanged_strings : shapes_hold fn_shapes shapes_strings = true.
+Proof. exact generated_shapes_strings. Qed.
+Theorem c06_modelled_functions_unchanged_filters : shapes_hold fn_shapes shapes_filters = true.
+Proof. exact generated_shapes_filters. Qed.
+
 Eval vm_compute in "ASSUMPTIONS c06_skip_exact". Print Assumptions c06_skip_exact.
 Eval vm_compute in "ASSUMPTIONS c06_unknown_member_step". Print Assumptions c06_unknown_member_step.
 Eval vm_compute in "ASSUMPTIONS c06_unknown_members_irrelevant". Print Assumptions c06_unknown_members_irrelevant.
@@ -104,3 +110,5 @@ Eval vm_compute in "ASSUMPTIONS c06_modelled_functions_unchanged_request". Print
 Eval vm_compute in "ASSUMPTIONS c06_enclosing_parameter_map_unchanged". Print Assumptions c06_enclosing_parameter_map_unchanged.
 Eval vm_compute in "ASSUMPTIONS c06_enclosing_dictionary_unchanged". Print Assumptions c06_enclosing_dictionary_unchanged.
 Eval vm_compute in "ASSUMPTIONS c06_modelled_dependencies_pinned". Print Assumptions c06_modelled_dependencies_pinned.
+Eval vm_compute in "ASSUMPTIONS c06_modelled_functions_unchanged_strings". Print Assumptions c06_modelled_functions_unchanged_strings.
+Eval vm_compute in "ASSUMPTIONS c06_modelled_functions_unchanged_filters". Print Assumptions c06_modelled_functions_unchanged_filters.
